@@ -490,6 +490,41 @@ func ruleRender(p *Prog, r *Result) {
 			}
 		}
 		r.add(okv, tn, p.Pos(fn.Pos()), tn+" renders its source text verbatim")
+		if tn == "NameExpr" {
+			// a name can be any text (everything between backticks is taken verbatim): it is printed bare only behind
+			// a test that asks the lexer whether the bare text reads back as a name, and in backticks otherwise
+			asksLexer := false
+			for g := range p.Reach([]*ssa.Function{fn}, nil) {
+				if g.Name() == "Split" || g.Name() == "buildToken" {
+					asksLexer = true
+				}
+			}
+			quoted := false
+			for _, c := range sprintfIn(fn) {
+				f, _ := constString(c.Call.Args[0])
+				args := variadic(c)
+				if f == "`%s`" && len(args) == 1 && isFieldLoad(args[0], tn, "Data") {
+					quoted = true
+				}
+			}
+			bareUnconditional := false
+			for _, b := range fn.Blocks {
+				ret := retOf(b)
+				if ret == nil {
+					continue
+				}
+				bare := isFieldLoad(retVal(ret, 0), tn, "Data")
+				if c, ok := retVal(ret, 0).(*ssa.Call); ok && p.calleeName(&c.Call) == "fmt.Sprintf" {
+					if f, _ := constString(c.Call.Args[0]); f == "%s" {
+						bare = true
+					}
+				}
+				if bare && len(dominatingAtoms(b)) == 0 {
+					bareUnconditional = true
+				}
+			}
+			r.add(asksLexer && quoted && !bareUnconditional, tn+"|quoted", p.Pos(fn.Pos()), "a name is printed bare only behind a test that asks the lexer whether the bare text reads back as this name, and between backticks otherwise (`KEY`, `a b`, `1`, `in` are names whose bare text reads back as something else)")
+		}
 	}
 	// binary node
 	if fn := p.MethodByName("BinaryOpExpr", "String"); fn != nil {
